@@ -85,8 +85,8 @@ CHECKS = {
             "7 C19", HX_NOTE + " The wall clock is overridden through the verif_hooks clock seam."),
     "C20": ("hx", "model_checking",
             "bounded exhaustive exploration of histories with a directory-listing oracle",
-            "After every step every file named by any entry of the version history must exist; after a version change made with watermark MAX while no snapshot is held, and after every reopen, the directory must contain exactly the files the current version names; and every crash image of the C05 enumeration, once recovered, must hold no table, blob or version file the recovered version does not name.",
-            "7 C20", HX_NOTE + " Histories with failed operations are not in this check (see C16/C05)."),
+            "After every step every file named by any entry of the version history must exist; after a version change made with watermark MAX while no snapshot is held, and after every reopen, the directory must contain exactly the files the current version names; every crash image of the C05 enumeration, once recovered, must hold no table, blob or version file the recovered version does not name; and after every file-system-changing call of every op of the C16 histories failed once (strace fault injection) the tree must reopen (no live file deleted) to a directory holding only what the recovered version names.",
+            "7 C20", HX_NOTE + " The crash and failed-operation parts reuse the C05 / C16 engines with a directory-listing oracle."),
 }
 
 NOT_YET = {
